@@ -148,6 +148,11 @@ func c20Scenario(c c20Case) *vsched.Scenario {
 					nReady++
 				}
 			case "task-saw-cancel":
+				if c.Sig == "" && !strings.HasSuffix(e.Detail, "terminate=false") {
+					// No signal was ever received (the cancellation comes from a failing task):
+					// nothing was recorded, so nothing says "terminate".
+					bad("C20:terminate-flag-without-signal", "no signal was received, %s", e.Detail)
+				}
 				if c.Sig != "" && firstErr == "" {
 					want := c.Sig != "HUP"
 					if !strings.HasSuffix(e.Detail, fmt.Sprintf("terminate=%t", want)) {
@@ -212,7 +217,7 @@ func c20Scenario(c c20Case) *vsched.Scenario {
 func TestVerifC20Sched(t *testing.T) {
 	r := ev.Begin("C20", "sched")
 	defer r.End(t)
-	r.Rule = "executions = goroutine schedules within the deviation bound of the instrumented real Server.Serve (errgroup, readiness WaitGroup, signal task, terminator, recording sdnotify) supervising 2-3 fake tasks with behaviours {runs until cancelled, slow to stop, fails while working, fails with an error wrapping context.Canceled, returns nil early, never ready} and a signal thread {none, SIGTERM, SIGINT, SIGHUP, SIGQUIT, SIGUSR1} (12 cases); oracle on the ordered log: Serve returns only after every task's Run exited, returns the first failing task's error else nil, every terminate() read after observing a signal's cancellation = (signal != SIGHUP), READY=1 at most once and only after every task started and closed Ready, never if a task never becomes ready"
+	r.Rule = "executions = goroutine schedules within the deviation bound of the instrumented real Server.Serve (errgroup, readiness WaitGroup, signal task, terminator, recording sdnotify) supervising 2-3 fake tasks with behaviours {runs until cancelled, slow to stop, fails while working, fails with an error wrapping context.Canceled, returns nil early, never ready} and a signal thread {none, SIGTERM, SIGINT, SIGHUP, SIGQUIT, SIGUSR1} (12 cases); oracle on the ordered log: Serve returns only after every task's Run exited, returns the first failing task's error else nil, every terminate() read after observing a signal's cancellation = (signal != SIGHUP) and false when the cancellation came from a failing task with no signal received, READY=1 at most once and only after every task started and closed Ready, never if a task never becomes ready"
 	name := func(c c20Case) string { return c.Name }
 	exploreCases(t, r, c20Cases(), name, c20Scenario, exploreOpts{Bound: 2})
 	if r.Thorough() && r.Replay == nil {
